@@ -535,13 +535,27 @@ def dec_from_line(sx):
     return d_out(sx, d_record)
 
 
-def impl_validate(spec, vmode, reset, vscheme):
+def _tamper(r, tamper):
+    """in-place edits of stored column objects: ["idx", name, i] / ["key", name, newkey]"""
+    for t in tamper or []:
+        try:
+            c = r[t[1]]
+        except KeyError:
+            continue
+        if t[0] == "idx":
+            c.column_index = t[2]
+        else:
+            c.key = t[2]
+
+
+def impl_validate(spec, vmode, reset, vscheme, tamper=None):
     ensure_repo()
     from maflib.record import MafRecord
     try:
         r = MafRecord.from_line(validation_stringency=py_mode("Silent"), **_recspec_args(spec))
     except Exception as e:  # noqa
         return ["noparse", c_exn(e)]
+    _tamper(r, tamper)
     with LogCapture() as cap:
         try:
             r.validate(validation_stringency=py_mode(vmode), reset_errors=reset, scheme=make_scheme(vscheme))
@@ -551,13 +565,14 @@ def impl_validate(spec, vmode, reset, vscheme):
         return ["parsed", {"log": cap.take(), "res": res}]
 
 
-def wire_validate(spec, vmode, reset, vscheme):
+def wire_validate(spec, vmode, reset, vscheme, tamper=None):
     ensure_repo()
     ids = Ids()
     rs, sch = m_recspec(spec, ids)
     vs = make_scheme(vscheme)
     tb = m_tables([s for s in (sch, vs) if s is not None], [spec["line"]], ids, [spec["names"]])
-    return [3, rs, m_mode(vmode), B(reset), ([] if vs is None else [m_scheme(vs, ids)]), tb]
+    tw = [([0, S(t[1]), OPT(t[2])] if t[0] == "idx" else [1, S(t[1]), S(t[2])]) for t in (tamper or [])]
+    return [3, rs, m_mode(vmode), B(reset), ([] if vs is None else [m_scheme(vs, ids)]), tb, tw]
 
 
 def dec_validate(sx):
